@@ -2,6 +2,7 @@
 # allmut.sh [ids...]: run every kept seeded change (default: all of /verif/seeded) against the quick check of
 # its property, each in its own scratch worktree + build + output directory (so /repo and /verif/evidence are
 # left alone and ordinary checks can run meanwhile). Prints one line per change: DETECTED / MISSED.
+# VERIF_DIR=<copy of /verif> runs the checks from a frozen copy of the machinery (so that it can be edited meanwhile).
 export GOFLAGS=-mod=mod GOPROXY=off GOSUMDB=off GOTOOLCHAIN=local
 ids="$@"; [ -z "$ids" ] && ids=$(ls /verif/seeded)
 mkdir -p /tmp/mut
@@ -11,7 +12,7 @@ one() {
   rm -rf $wt $wt.build $wt.out
   git -C /repo worktree add --detach $wt HEAD >/dev/null 2>&1 || { echo "$id WORKTREE-FAIL"; return; }
   if ! git -C $wt apply /verif/seeded/$id/patch.diff 2>/dev/null && ! git -C $wt apply -3 /verif/seeded/$id/patch.diff >/dev/null 2>&1; then echo "$id PATCH-FAIL"; else
-    out=$(cd /verif && VERIF_REPO=$wt VERIF_BUILD=$wt.build VERIF_OUT=$wt.out VERIF_NO_SELFTEST=1 ./verif check $prop 2>&1)
+    out=$(cd ${VERIF_DIR:-/verif} && VERIF_REPO=$wt VERIF_BUILD=$wt.build VERIF_OUT=$wt.out VERIF_NO_SELFTEST=1 ./verif check $prop 2>&1)
     rc=$?
     rules=$(echo "$out" | grep -o "rule=[A-Za-z0-9_.]*" | sort -u | tr '\n' ' ')
     if [ $rc -eq 1 ]; then echo "$id DETECTED $rules"; elif [ $rc -eq 0 ]; then echo "$id MISSED"; else echo "$id ERROR rc=$rc $(echo "$out" | tail -2 | tr '\n' ' ' | cut -c1-200)"; fi
